@@ -10,7 +10,7 @@ from harness.core import ok, fail, skip, rs
 from harness.worker import Stream
 
 OBLIGATIONS = [
-    "PgmVerif.C17_shift_den", "PgmVerif.C17_unroll_slices", "PgmVerif.C17_unroll_wf",
+    "PgmVerif.C17_shift_den", "PgmVerif.C17_unroll_slices", "PgmVerif.C17_shift_add", "PgmVerif.C17_unroll_prefix", "PgmVerif.C17_unroll_wf",
     "PgmVerif.C17_slicewise_elimination_exact",
 ]
 PARTIAL = ["eliminating the unrolled network slice by slice is proved exact for every T (C17_slicewise_elimination_exact, an instance of the VE "
